@@ -13,6 +13,24 @@ from asyncfix.errors import FIXMessageError
 from asyncfix.message import FIXContainer
 
 
+# FIX lexical spaces (FIX 4.4 Volume 1, data types): ASCII digits only, no
+#   whitespace / underscores / exponents / unpadded date parts, which Python's
+#   int() / float() / strptime() would accept
+RE_FIX_INT = re.compile(r"-?[0-9]+")
+RE_FIX_FLOAT = re.compile(r"-?([0-9]+(\.[0-9]*)?|\.[0-9]+)")
+RE_NON_FINITE = re.compile(r"[+-]?(nan|inf|infinity)", re.IGNORECASE)
+RE_FIX_DATETIME = {
+    "%Y%m": re.compile(r"[0-9]{6}"),
+    "%Y%m%d": re.compile(r"[0-9]{8}"),
+    "%H:%M:%S": re.compile(r"[0-9]{2}:[0-9]{2}:[0-9]{2}"),
+    "%H:%M:%S.%f": re.compile(r"[0-9]{2}:[0-9]{2}:[0-9]{2}\.[0-9]{1,6}"),
+    "%Y%m%d-%H:%M:%S": re.compile(r"[0-9]{8}-[0-9]{2}:[0-9]{2}:[0-9]{2}"),
+    "%Y%m%d-%H:%M:%S.%f": re.compile(
+        r"[0-9]{8}-[0-9]{2}:[0-9]{2}:[0-9]{2}\.[0-9]{1,6}"
+    ),
+}
+
+
 @dataclasses.dataclass
 class SchemaField:
     """FIX Field schema."""
@@ -126,9 +144,13 @@ class SchemaField:
 
         try:
             dtm.datetime.strptime(value, format)
-            return None  # all good
         except Exception as exc:
             return str(exc)
+
+        if not RE_FIX_DATETIME[format].fullmatch(value):
+            # parsed by strptime(), but not the fixed FIX layout (unpadded parts, etc.)
+            return f"time data {value!r} does not match FIX layout of '{format}'"
+        return None  # all good
 
     @staticmethod
     def _validate_value_monthyear(value):
@@ -188,6 +210,13 @@ class SchemaField:
     ) -> str | None:
         assert value
         assert num_type in (int, float)
+
+        if num_type is int and not RE_FIX_INT.fullmatch(value):
+            return f"invalid literal for int() with base 10: {value!r}"
+        if num_type is float and not RE_FIX_FLOAT.fullmatch(value):
+            if no_nonfinite and RE_NON_FINITE.fullmatch(value):
+                return "not isfinite number"
+            return f"could not convert string to float: {value!r}"
 
         try:
             v = num_type(value)
